@@ -70,6 +70,10 @@ CHECKS = {
          "and refutes a read-ahead serializer and a look-ahead parser (non-vacuity). Real pipelines (flat_stream_to_frames, stream_frames over TRIPLES/QUADS statement iterators, both integrations) are instrumented from outside and every event log is validated by TLC as a behaviour of the model "
          "with the Tier-1 clauses evaluated on logged values (spec/TracePipeline.tla); on the read side a source that stalls forever after frame j must see every item of frames 1..j yielded.",
          "TLC model checking of spec/PyPipeline.tla (action properties, liveness) + TLC trace validation of recorded pipeline event logs"),
+ "C12": ("model_checking", "6 C12",
+         "spec/PyIsolation.tla: TLC checks that what a stream emits equals its solo output over ALL interleavings of the steps of independent streams, refutes the two shared-state designs (repeated terms / lookup table as process-wide state), and enumerates the interleavings (70 for 4+4 steps, three-way with a parser). "
+         "Each schedule is imposed on real generator pipelines of both integrations and a parser, then on real threads handing over a baton in that order, then free-running threads with a 1 microsecond switch interval; prior process history and fresh processes under several PYTHONHASHSEED values are compared with the solo bytes.",
+         "TLC exhaustive enumeration of interleavings (spec/PyIsolation.tla) replayed on real generator pipelines and threads; subprocess determinism"),
  "C13": ("model_checking", "6 C13",
          "spec/PyHeader.tla states the reader contract for headers (forbidden physical/logical pairs, name table >= 8, tables <= 4096, version <= 2, strict flat/grouped gates, non-strict independence of the logical type); TLC enumerates the complete lattice "
          "pt x 8 logical types x table sizes {7,8,4096,4097} x versions x {flat,grouped} x strict with the expected outcome of each point; each point becomes bytes (by /verif's codec, also for pairs pyjelly's writer refuses) and goes through both integrations' parsers. "
